@@ -173,6 +173,27 @@ fn generate(tier: &str, seed: u64, emit: &mut dyn FnMut(Case)) {
             emit(mk_w(&full, &new, &[], "exh-dropscopes"));
         }
     }
+    // big environments: many variables in one scope (directory listings / maps / sorts beyond the small sizes above); the old
+    // environment is a same-sized one on other names, an overlapping one, or the same one
+    {
+        let sizes: &[usize] = if tier == "thorough" { &[16, 17, 21, 32, 33, 40, 64, 65, 100, 128, 129, 200, 257] } else { &[17, 33, 65, 129] };
+        let mut bi = 0u64;
+        for &nv in sizes { for sc in ["A", "B", "L", "P:776562"] { for variant in 0..3 {
+            bi += 1;
+            let mut r = Rng::for_case(seed ^ 0xb19, bi);
+            let mk = |r: &mut Rng, pfx: &str, nv: usize| -> Vec<Ins> {
+                let mut v: Vec<Ins> = vec![];
+                for i in 0..nv { let nb = 1 + r.below(3) as usize; let mut bs: Vec<&str> = BEHS.to_vec(); r.shuffle(&mut bs);
+                    for b in bs.into_iter().take(nb) { let val: Vec<u8> = if b == "m" { b":".to_vec() } else { format!("{b}{i}").into_bytes() }; v.push((sc.to_string(), b.to_string(), format!("{pfx}{i:03}").into_bytes(), val)); } }
+                r.shuffle(&mut v); v
+            };
+            let new = mk(&mut r, "V", nv);
+            let old: Vec<Ins> = match variant { 0 => mk(&mut r, "W", nv), 1 => { let mut o = new.clone(); o.truncate(new.len() / 2); o.extend(mk(&mut r, "W", nv / 2)); o }, _ => new.clone() };
+            let mut c = mk_w(&old, &new, &[], "bigW");
+            c.nontrivial = true;
+            emit(c);
+        } } }
+    }
     // read side: spec-shaped env directories with arbitrary file names (no two files designating one key)
     let fnames: &[&[u8]] = &[b"A", b"A.append", b"A.default", b"A.delim", b"A.prepend", b"B.override", b"C.unknown", b"D.", b".E", b".E.append", b"F.b.append", b"G.APPEND", b"H.append.bak", b"\xffI.prepend", b"J.\xff", b"K K", b"L.override.override"];
     let rsamples = if tier == "thorough" { 30_000 } else { 2_000 };
